@@ -275,6 +275,14 @@ impl<T: El> Interp<T> {
         let res = scoped(move || {
           if parts {
             let (p, l, c) = old.into_raw_parts();
+            // "neither free nor alter anything": the header behind the pointer still says what the vector said, so the
+            // one-argument constructor (which has nothing but the header to go by) sees the same length and capacity
+            let probe = unsafe { MiniVec::<T>::from_raw_part(p) };
+            let (pl, pc) = (probe.len(), probe.capacity());
+            core::mem::forget(probe);
+            if (pl, pc) != (l, c) {
+              tl!("O rawparts into_raw_parts altered the header: it returned len {} cap {} but from_raw_part on its pointer sees len {} cap {}", l, c, pl, pc);
+            }
             (unsafe { MiniVec::from_raw_parts(p, l, c) }, l, c)
           } else {
             let mut old = old;
